@@ -1,15 +1,11 @@
 CONSTANTS
   NT = 2
   NP = 2
-  MaxOps = 2
+  MaxOps = 12
   MaxSz = 5
-  Sim = FALSE
+  Sim = TRUE
 INIT Init
 NEXT Next
 INVARIANT Emit
 INVARIANT CellOk
-PROPERTY RoundTrip
-PROPERTY FailedKeeps
-PROPERTY Detached
-PROPERTY PersistPure
 CHECK_DEADLOCK FALSE
